@@ -435,6 +435,95 @@ def part_grid(payload):
     return part
 
 
+XP_SCRIPT = r"""
+import json, pickle, sys, numpy as np
+sys.path.insert(0, sys.argv[3])
+import unyt
+assert unyt.__file__.startswith(sys.argv[3]), unyt.__file__
+from unyt import unyt_array, unyt_quantity
+
+DIV = {"degree*m": "m", "degree": None, "rad*s": "s", "arcmin/s": "1/s", "vfarcm": "m", "vfturn*km": "m", "K*m": "m"}
+
+
+def outcome(f):
+    try:
+        r = f()
+        return ["value", np.round(np.asarray(r, dtype=float), 10).tolist(), str(getattr(r, "units", ""))]
+    except Exception as e:
+        return ["raise", type(e).__name__]
+
+
+def outcomes(objs):
+    res = {}
+    for name, q in objs.items():
+        ops = {"identity": lambda q: q, "to_base": lambda q: q.in_base(), "x*2": lambda q: q * 2.0, "x*x": lambda q: q * q, "sqrt(|x|)": lambda q: np.sqrt(abs(q)), "x+x": lambda q: q + q}
+        if name in DIV:
+            d = DIV[name]
+            rest = (lambda q: q) if d is None else (lambda q: q / unyt_quantity(2.0, d, registry=q.units.registry))
+            ops.update({"sin(x/rest)": lambda q: np.sin(rest(q)), "cos(x/rest)": lambda q: np.cos(rest(q)), "tan(x/rest)": lambda q: np.tan(rest(q)),
+                        "sqrt(x*x)/rest": lambda q: rest(np.sqrt(q * q)).in_base()})
+        for on, f in ops.items():
+            res[name + " :: " + on] = outcome(lambda: f(q))
+    return res
+
+
+if sys.argv[1] == "write":
+    import unyt.dimensions as D
+    from unyt.unit_registry import UnitRegistry
+    reg = UnitRegistry()
+    reg.add("vfarcm", 2.0, D.length * D.angle)
+    reg.add("vfturn", 6.283185307179586, D.angle)
+    objs = {}
+    # the registry whose *table* holds a compound dimension comes first: its entries are the first compound dimensions the reader meets
+    for name, u, r in (("vfarcm", "vfarcm", reg), ("vfturn*km", "vfturn*km", reg), ("degree*m", "degree*m", None), ("degree", "degree", None), ("rad*s", "rad*s", None),
+                       ("arcmin/s", "arcmin/s", None), ("degC", "degC", None), ("degF*1", "degF", reg), ("dB", "dB", None), ("K*m", "K*m", None)):
+        objs[name] = unyt_array(np.array([30.0, 60.0, -15.0]), u, registry=r)
+    pickle.dump(objs, open(sys.argv[2], "wb"), protocol=int(sys.argv[4]))
+    print(json.dumps(outcomes(objs)))
+else:
+    print(json.dumps(outcomes(pickle.load(open(sys.argv[2], "rb")))))
+"""
+
+
+def part_cross_process(payload):
+    """objects pickled by one interpreter and loaded by *another, fresh* one (the usual life of a pickle) behave like their originals:
+    angle-aware trigonometry after the non-angle factor is divided away, the temperature / logarithmic guards, roots of squares.
+    Both sides are evaluated by the same script; the writer reports the originals' outcomes, the reader the restored ones'."""
+    import json
+    import os
+    import subprocess
+    import sys
+
+    import unyt
+
+    known = core.Known("C11")
+    part = core.Part()
+    repo = os.path.dirname(os.path.dirname(os.path.abspath(unyt.__file__)))
+    for proto in payload["protocols"]:
+        fd, path = tempfile.mkstemp(suffix=".pkl")
+        os.close(fd)
+        try:
+            outs = []
+            for mode in ("write", "read"):
+                pr = subprocess.run([sys.executable, "-W", "ignore", "-c", XP_SCRIPT, mode, path, repo, str(proto)], capture_output=True, text=True, timeout=300)
+                if pr.returncode:
+                    raise RuntimeError(f"cross-process {mode} failed: " + pr.stderr[-400:])
+                outs.append(json.loads(pr.stdout.strip().splitlines()[-1]))
+        finally:
+            os.remove(path)
+        orig, rest = outs
+        for k in sorted(orig):
+            part.ev()
+            name, on = k.split(" :: ")
+            if orig[k] != rest.get(k):
+                core.classify(known, part, f"C11:behaviour-differs:pickle-loaded-by-a-fresh-interpreter:{on}", {"unit": name, "protocol": proto, "original": orig[k], "restored": rest.get(k)})
+            else:
+                part.nt(("cross-process", name, on, proto))
+    if len(part.samples) < 1:
+        part.sample({"route": "pickled by one interpreter, loaded by a fresh one", "cases": len(orig), "protocols": payload["protocols"]})
+    return part
+
+
 def run(ctx):
     cells = [(r, k, u) for r in ROUTES for k in ("default", "custom", "custom-modified-cgs") for u in SPECIAL_UNITS]
     ctx.rule = (
@@ -449,6 +538,7 @@ def run(ctx):
         "the restored object is compared with a never-persisted twin built the same way, so the comparison is exact (same code path, same inputs)",
     ]
     ctx.merge(core.pmap(MOD, "part_grid", [{"cells": sh} for sh in core.shards(cells, 16)]))
+    ctx.merge(core.pmap(MOD, "part_cross_process", [{"protocols": [2, 5]}] if ctx.quick else [{"protocols": [2]}, {"protocols": [3]}, {"protocols": [4]}, {"protocols": [5]}], timeout=600))
     n = ctx.pick(3200, 64000)
     ctx.merge(core.pmap(MOD, "part_random", [{"n": n // 16, "seed": ctx.seed * 1000 + i} for i in range(16)]))
 
